@@ -98,7 +98,7 @@ def build(ctx):
     G, D = 2, 1
     ctx.assumptions = ["solver half: const-byte views over an arbitrary image within the geometry bounds (numInGroup <= %d, data length <= %d); buffer compared byte by byte after the call" % (G, D),
                        "type-level half is NOT a solver verdict: generated static_asserts evaluated by clang while lowering (observations_not_solver_verdicts)"]
-    plan = [("vs_msg_le.xml", "17")] if ctx.quick else [(x, s) for s in ("11", "14", "17", "20") for x in ("vs_msg_le.xml", "vs_msg_be.xml")] + [("vs_msg2_le.xml", "17"), ("vs_msg2_be.xml", "20")]
+    plan = [("vs_msg_le.xml", "17"), ("vs_msg2_be.xml", "20")] if ctx.quick else [(x, s) for s in ("11", "14", "17", "20") for x in ("vs_msg_le.xml", "vs_msg_be.xml")] + [("vs_msg2_le.xml", "17"), ("vs_msg2_be.xml", "20")]
     plan = hgen.plan_env(plan, 2)
     nsa = 0
     nprobe = [0]
